@@ -35,7 +35,7 @@ def gates(pid: str) -> Rule:
 FROM_TO_DOM = ("prosemirror/model/from_dom.py", "prosemirror/model/to_dom.py")
 
 prop("C01", "RG gates on the step/replace mechanisms, RK-registry (all step types decodable)", [gates("C01"), rk.rule_rk_registry, rcustom.rule_rg3, rcustom.rule_rq])
-prop("C05", "RK-json (writer/reader key agreement for 11 to_json/from_json pairs), RK-registry, RT2 (attribute presence by membership), RG gates on conditional JSON keys", [rk.rule_rk_json, rk.rule_rk_registry, rt.rule_rt2, rf.rule_rf_json, rf.rule_rf_returns_fresh, gates("C05")])
+prop("C05", "RK-json (writer/reader key agreement for 11 to_json/from_json pairs), RK-registry, RT2 (attribute presence by membership), RG gates on conditional JSON keys", [rk.rule_rk_json, rk.rule_rk_json_falsy, rk.rule_rk_registry, rt.rule_rt2, rf.rule_rf_json, rf.rule_rf_returns_fresh, gates("C05")])
 prop("C06", "RK-kinds (expression kinds agree between parser, NFA compiler and type), RM (group membership on split lists), RG gates of schema build", [rk.rule_rk_kinds, rsmall.rule_rm, rcustom.rule_nfa_loops, rcustom.rule_rec_guard, gates("C06")])
 prop("C08", "RS (flat record arrays ranges/mirror: writer arity, reader residues, selectors, accumulator), RI (guarded index not advanced before use), RL over map.py, RG gates of the mapping algebra", [
     rs.rule_rs_writers,
